@@ -1,12 +1,21 @@
+// C19 — accountability: duplicate-vote evidence is accepted exactly for real double-signing, once.
+//
+//	(a) acceptance matrix: every vote pair of a small-scope product and every single-field mutation of a
+//	    valid evidence, offered to a real evidence.Pool on a hand-driven chain (real cstate.Store and
+//	    BlockExecutor, one validator-set change), judged by the reference predicate of DESIGN.md A.7;
+//	(b) the reachable state graph of a real pool under add / consensus-add / check / commit / restart,
+//	    with replay variants of a committed evidence;
+//	(c) netsim: real ConsensusState nodes with real pools and an equivocating validator; what consensus
+//	    produces is gossiped, proposed, validated and committed; plus the real BlockOperations on the
+//	    full single-validator stack.
 package main
 
 import (
+	"encoding/json"
 	"fmt"
+	"os"
+	"runtime/pprof"
 	"time"
-
-	"github.com/kardiachain/go-kardia/types"
-	"github.com/kardiachain/go-kardia/types/evidence"
-	kproto "github.com/kardiachain/go-kardia/proto/kardiachain/types"
 
 	"verif/mc/report"
 )
@@ -17,35 +26,83 @@ func main() {
 	r = report.New("C19", "model_checking")
 	initKeys()
 	initBus()
-	t0 := time.Now()
-	f, err := buildFixture(10, 5, 10)
+	depth, bound := 5, 0
+	dl := 75 * time.Second
+	if r.Thorough() {
+		depth, bound = 6, 1 // bound 1 = one deviation from netsim's synchronous schedule, on a selection of scenarios
+		dl = 13 * time.Minute
+	}
+	r.SetDeadline(dl)
+	deadlineAt = time.Now().Add(dl)
+	f, err := buildFixture(baseHeadB+uint64(depth)+2, 5, 10)
 	if err != nil {
-		panic(err)
+		fmt.Println("MACHINERY-ERROR: cannot build the fixture chain:", err)
+		os.Exit(2)
 	}
 	fx = f
-	fmt.Println("fixture built in", time.Since(t0))
-	for h := uint64(0); h <= 10; h++ {
-		fmt.Println(h, fx.blockTime[h])
+
+	if r.ReplayPath != "" {
+		var probe struct {
+			Part string `json:"part"`
+		}
+		if err := r.LoadReplay(&probe); err != nil {
+			fmt.Println("cannot load replay:", err)
+			os.Exit(2)
+		}
+		bad := false
+		switch probe.Part {
+		case "a":
+			var c ACase
+			r.LoadReplay(&c)
+			bad = replayA(c)
+		case "b":
+			var c BCase
+			r.LoadReplay(&c)
+			bad = replayB(c)
+		case "c":
+			var c CCase
+			r.LoadReplay(&c)
+			bad = replayC(c)
+		case "full":
+			bad = runFullProbe()
+		default:
+			b, _ := json.Marshal(probe)
+			fmt.Println("unknown replay case", string(b))
+			os.Exit(2)
+		}
+		if bad {
+			fmt.Printf("VIOLATION property=C19 replay=%s\n", r.ReplayPath)
+			os.Exit(1)
+		}
+		fmt.Println("not reproduced")
+		os.Exit(0)
 	}
-	d, err := openChain(fx.snaps[5].kvs, fx.snaps[5].state, fx.snaps[5].last)
-	if err != nil {
-		panic(err)
+
+	if pf := os.Getenv("C19_PROF"); pf != "" {
+		f, _ := os.Create(pf)
+		pprof.StartCPUProfile(f)
+		defer pprof.StopCPUProfile()
 	}
-	v := evidence.VerifC19Inspect(d.pool)
-	fmt.Printf("%+v\n", v)
-	idA := types.BlockID{Hash: hashOf("A"), PartsHeader: types.PartSetHeader{Total: 1, Hash: hashOf("pA")}}
-	idB := types.BlockID{Hash: hashOf("B"), PartsHeader: types.PartSetHeader{Total: 1, Hash: hashOf("pB")}}
-	va := mkVote(1, 1, 4, 1, kproto.PrevoteType, idA, fx.blockTime[4].Add(time.Second), idxIn(4, 1), chainID)
-	vb := mkVote(1, 1, 4, 1, kproto.PrevoteType, idB, fx.blockTime[4].Add(time.Second), idxIn(4, 1), chainID)
-	ev := types.NewDuplicateVoteEvidence(va, vb, fx.blockTime[4], types.NewValidatorSet(valList(refSet(4))))
-	fmt.Println("evidence bytes", len(ev.Bytes()), "validate", ev.ValidateBasic())
+	only := os.Getenv("C19_ONLY")
+	t0 := time.Now()
+	if only == "" || only == "a" {
+		runPartA()
+		fmt.Printf("part (a) done in %.1fs\n", time.Since(t0).Seconds())
+	}
 	t1 := time.Now()
-	fmt.Println("add:", d.pool.AddEvidence(ev), time.Since(t1))
-	p, c := evidence.VerifC19Keys(d.pool)
-	fmt.Println(p, c)
-	evs, sz := d.pool.PendingEvidence(216)
-	fmt.Println("pending(216)", len(evs), sz)
-	evs, sz = d.pool.PendingEvidence(-1)
-	fmt.Println("pending(-1)", len(evs), sz)
+	if only == "" || only == "b" {
+		runPartB(depth)
+		fmt.Printf("part (b) done in %.1fs\n", time.Since(t1).Seconds())
+	}
+	t2 := time.Now()
+	if only == "" || only == "c" {
+		runFullProbe()
+		fmt.Printf("full-stack probe done in %.1fs\n", time.Since(t2).Seconds())
+		runPartC(bound)
+		fmt.Printf("part (c) done in %.1fs\n", time.Since(t2).Seconds())
+	}
+	describe()
+	r.Exhaustive(true)
+	pprof.StopCPUProfile()
 	r.Finish()
 }
